@@ -19,13 +19,14 @@ RULE = (
     "columns (int, float, str, bool), a uid column carrying the original id (so renumbering is "
     "checkable), columns renamed and shuffled with the corresponding node_name_map (single keys "
     "and composite pos, also in a permuted axis order), optional valid / invalid track_id "
-    "column; (b) GEFF stores written with geff.write under arbitrary property names and read "
+    "column, optional mapped lineage_id column (arbitrary valid ids), node ids that include 0; "
+    "(b) GEFF stores written with geff.write under arbitrary property names and read "
     "with import_from_geff(node_name_map). Oracle: nodes = source ids (or the uid bijection), "
     "edges = source (parent, child) pairs, time / pos (mapped order) / every mapped property "
     "equal row by row, a supplied valid track_id column kept as given (an invalid one is not "
     "judged: the property only speaks about mapped values). Malformed variants "
     "of every shape (duplicate id, parent that is no row, self-parent, missing required column, "
-    "mapping to a non-existent column; GEFF: duplicate node id / dangling edge / self edge "
+    "mapping to a non-existent column, negative parent other than the -1 placeholder; GEFF: duplicate node id / dangling edge / self edge "
     "written into the zarr arrays) must raise ValueError. Distinct = (source, id kind, root "
     "encoding, ndim, mapping kind, track-id column, malformation)"
 )
@@ -39,11 +40,14 @@ RENAMES = {"time": ["time", "t", "frame"], "id": ["id", "cell", "node"],
 def gen_table(rng):
     nd = rng.choice([2, 2, 3])
     T = rng.randint(1, 6)
-    forest = gen.random_forest(rng, T, rng.choice([1, 2, 3]), rng.choice(["contig", "sparse"]),
+    forest = gen.random_forest(rng, T, rng.choice([1, 2, 3]),
+                               rng.choice(["contig", "sparse", "zero"]),
                                rng.choice([0, 0.3]), min_nodes=1, p_empty=0.1)
-    idkind = rng.choice(["int", "int", "str"])
+    idkind = rng.choice(["int", "int", "str", "float"])
     ids = list(forest.times)
-    ext = {n: (f"c{n:03d}" if idkind == "str" else n) for n in ids}
+    # float ids with fractional parts (several of them truncate to the same integer)
+    ext = {n: (f"c{n:03d}" if idkind == "str" else (n // 3 + (n % 3) / 4 + 0.25)
+               if idkind == "float" else n) for n in ids}
     rootenc = rng.choice(["-1", "nan", "empty"]) if idkind == "int" else rng.choice(["nan",
                                                                                        "empty"])
     axes = ["z", "y", "x"][-nd:]
@@ -73,6 +77,11 @@ def gen_table(rng):
                 tid_of[a] = tids[0]
         else:
             tid_mode = "valid"
+    # lineage ids: arbitrary (non-canonical) but valid - one id per connected component
+    lid_mode = rng.choice(["none", "none", "valid"])
+    comps = sorted(O.component_partition(ids, forest.edges), key=min)
+    lids = rng.sample(range(5, 3 * len(comps) + 40), len(comps))
+    lid_of = {n: lids[i] for i, c in enumerate(comps) for n in c}
     for n in ids:
         row = {names["time"]: forest.times[n], names["id"]: ext[n]}
         p = parent.get(n)
@@ -94,6 +103,8 @@ def gen_table(rng):
             row["flag"] = rng.random() < 0.5
         if tid_mode != "none":
             row["tid_col"] = tid_of[n]
+        if lid_mode != "none":
+            row["lin_col"] = lid_of[n]
         rows.append(row)
     cols = list(rows[0].keys())
     rng.shuffle(cols)
@@ -103,14 +114,19 @@ def gen_table(rng):
         nm[c] = c
     if tid_mode != "none":
         nm["track_id"] = "tid_col"
-    return {"nd": nd, "rows": rows, "cols": cols, "nm": nm, "idkind": idkind,
+    if lid_mode != "none":
+        nm["lineage_id"] = "lin_col"
+    has_div = any(sum(1 for e in forest.edges if e[0] == u) == 2 for u in ids)
+    return {"lid_mode": lid_mode, "has_div": has_div, "zero_id": 0 in ids and idkind == "int",
+            "nd": nd, "rows": rows, "cols": cols, "nm": nm, "idkind": idkind,
             "rootenc": rootenc, "mapkind": mapkind, "order": order, "posnames": posnames,
             "names": names, "customs": use_custom, "tid_mode": tid_mode,
             "edges": [(str(ext[u]), str(ext[v])) for u, v in forest.edges],
             "int_edges": list(forest.edges), "malform": None}
 
 
-MALFORMS = ["duplicate-id", "unknown-parent", "self-parent", "missing-column", "bad-mapping"]
+MALFORMS = ["duplicate-id", "unknown-parent", "self-parent", "missing-column", "bad-mapping",
+            "negative-parent"]
 
 
 def malform(case, rng, kind):
@@ -123,10 +139,17 @@ def malform(case, rng, kind):
         rows.append(r)
     elif kind == "unknown-parent":
         r = rng.choice(rows)
-        r[names["parent_id"]] = "zz999" if case["idkind"] == "str" else 987654
+        r[names["parent_id"]] = {"str": "zz999", "float": 98765.5}.get(case["idkind"], 987654)
     elif kind == "self-parent":
         r = rng.choice(rows)
         r[names["parent_id"]] = r[names["id"]]
+    elif kind == "negative-parent":
+        # -1 is the documented 'no parent' placeholder; any other negative value is a link
+        # to a node that is not in the table
+        if case["idkind"] != "int":
+            return malform(case, rng, "unknown-parent")
+        r = rng.choice(rows)
+        r[names["parent_id"]] = rng.choice([-2, -3, -10])
     elif kind == "missing-column":
         drop = rng.choice([names["time"], names["id"], names["parent_id"], case["posnames"][0]])
         rows = [{k: v for k, v in r.items() if k != drop} for r in rows]
@@ -214,6 +237,13 @@ def compare(case, tracks, src):
             if v != r[c]:
                 probs.append(("custom", f"node {n}: {c} = {v!r} != {r[c]!r}",
                               f"C12/{src}/custom/{c}"))
+                break
+    if case.get("lid_mode") == "valid" and not probs:
+        for n in g.nodes:
+            if tracks.get_lineage_id(n) != rows[uid_of[n]]["lin_col"]:
+                probs.append(("lineage-id-kept", f"valid mapped lineage id of node {n} replaced: "
+                              f"{tracks.get_lineage_id(n)} != {rows[uid_of[n]]['lin_col']}",
+                              f"C12/{src}/lineage-id-not-kept"))
                 break
     if case["tid_mode"] == "valid" and not probs:
         for n in g.nodes:
@@ -317,7 +347,14 @@ def run_shard(spec):
                     acc["counters"][f"{src}-{kind}"] = acc["counters"].get(f"{src}-{kind}", 0) + 1
                     acc["keys"].add(f"{src}/{case['idkind']}/{case['rootenc']}/{case['nd']}D/"
                                     f"{case['mapkind']}/tid={case['tid_mode']}/"
-                                    f"{case['malform']}")
+                                    f"lid={case['lid_mode']}/{case['malform']}")
+                    if not case["malform"]:
+                        if case["zero_id"]:
+                            acc["counters"]["wellformed-with-id-0"] = \
+                                acc["counters"].get("wellformed-with-id-0", 0) + 1
+                        if case["lid_mode"] == "valid" and case["has_div"]:
+                            acc["counters"]["mapped-lineage-with-division"] = \
+                                acc["counters"].get("mapped-lineage-with-division", 0) + 1
                     for clause, what, key in (probs or [])[:1]:
                         acc["violations"].append({
                             "clause": clause, "what": what, "key": key,
@@ -347,7 +384,8 @@ def jsonable(case):
 
 def floors(tier):
     return {"df-wellformed": 800, "df-malformed": 800, "geff-wellformed": 150,
-            "geff-malformed": 100}
+            "geff-malformed": 100, "wellformed-with-id-0": 100,
+            "mapped-lineage-with-division": 50}
 
 
 def replay(doc):
